@@ -6,6 +6,7 @@ import (
 	"github.com/pinealctx/neptune/ulog"
 	"github.com/redis/go-redis/v9"
 	"go.uber.org/zap"
+	"math"
 	"time"
 )
 
@@ -65,7 +66,7 @@ func (t *ttlRdsCache) Get(ctx context.Context, key string, fns ...GetOptFn) ([]b
 		return nil, err
 	}
 	if o.updateTTL {
-		err = t.cmd.Expire(ctx, key, time.Duration(o.ttl)*time.Second).Err()
+		err = t.cmd.Expire(ctx, key, seconds(o.ttl)).Err()
 		if err != nil {
 			return nil, err
 		}
@@ -101,6 +102,16 @@ func (t *ttlRdsCache) Clear(ctx context.Context) {
 func expiration(ttl int64) time.Duration {
 	if ttl <= 0 {
 		return 0
+	}
+	return seconds(ttl)
+}
+
+// seconds converts a ttl in seconds into a duration; where the product would
+// wrap it is the longest whole number of seconds a duration can hold.
+func seconds(ttl int64) time.Duration {
+	const max = int64(math.MaxInt64 / time.Second)
+	if ttl > max {
+		ttl = max
 	}
 	return time.Duration(ttl) * time.Second
 }
